@@ -90,6 +90,18 @@ def reOf (kind : String) (lit : Bytes) : Option (Bytes → Bool) :=
   else if kind = "sub" then some fun u => validUtf8 u && isInfix lit u
   else none
 
+/-- `(?i)^name(:[0-9]+)?$` on an authority (PCRE2, UTF mode) -/
+def reHostPort (name u : Bytes) : Bool :=
+  validUtf8 u &&
+    (u.map toLower == name.map toLower ||
+     (preMatch true (name ++ [colon]) u && (u.drop (name.length + 1)).all isDigit &&
+      !(u.drop (name.length + 1)).isEmpty))
+
+def hostReOf (kind : String) (lit : Bytes) : Option (Bytes → Bool) :=
+  if kind = "cp" then some (reCaselessPrefix lit)
+  else if kind = "hp" then some (reHostPort lit)
+  else none
+
 def scopeOf (s : String) : Option Scope :=
   if s = "G" then some .global else
   match splitC ':' s with
@@ -101,6 +113,7 @@ def scopeOf (s : String) : Option Scope :=
   | [t, k, h] =>
     (match t.toList, ofHex h with
      | ['R', n], some b => (reOf k b).map fun m => Scope.urlRe (n == '1') m
+     | ['Q', n], some b => (hostReOf k b).map fun m => Scope.hostRe (n == '1') m
      | _, _ => none)
   | [t, fam, a, bits] =>
     (match t.toList, ofHex a, bits.toNat? with
